@@ -4,14 +4,14 @@ import json
 
 from hypothesis import strategies as st
 
-from vlib import gen_prog, purity
+from vlib import gen_prog, progeval, purity
 
 ID = "C10"
 SHARDS = 16
 RULE = (
     "Hypothesis builds a pool of 3..5 programs (single-argument predicates, general functions, a parameterised function, a caller of a "
     "pool function; names drawn from a pool containing same-named functions and names living in qlasskit.qlassfun's module namespace: "
-    "copy, reduce, partial, ast, inspect, Q, flatten, to_quantum, oracle, ...) and a history of 4..12 public API operations over LIVE "
+    "copy, reduce, partial, ast, inspect, Q, flatten, to_quantum, oracle, ...) and a history of 5..11 public API operations over LIVE "
     "objects (compile with varied options, bind, defs=[live], oraclize, Grover/DeutschJozsa/BernsteinVazirani/Simon construction, export "
     "qasm/qiskit/sympy/cirq circuit+gate, decompile, circuit optimizer, truth_table, to_logicfun, repr), re-using objects across steps. "
     "Oracle: (i) the fingerprint of every step's result equals the fingerprint of the same closed recipe evaluated ALONE in a fresh "
@@ -29,7 +29,7 @@ PLAIN_NAMES = ["f", "g", "h", "pred", "f"]
 
 
 def budget(tier):
-    return 48 if tier == "quick" else 1200
+    return 40 if tier == "quick" else 1200
 
 
 def pred_cfg():
@@ -52,7 +52,14 @@ def case(draw):
         progs.append({"kind": "pred", "prog": p})
     progs.append({"kind": "gen", "prog": draw(gen_prog.program(gen_cfg(), name=names[2]))})
     # a simon-able / general int function of one argument
-    progs.append({"kind": "fun1", "prog": draw(gen_prog.program(pred_cfg(), args=[["a", ["int", 2]]], ret=["int", 2], name=names[3]))})
+    f1 = draw(gen_prog.program(pred_cfg(), args=[["a", ["int", 2]]], ret=["int", 2], name=names[3]))
+    if draw(st.integers(0, 9)) < 7:
+        # make sure if-statements (translated through generated temporary names) are part of most histories
+        cond = ["idx", ["v", "a"], draw(st.integers(0, 1))]
+        then = [["aug", "a", draw(st.sampled_from(["+", "^", "|"])), ["k", draw(st.integers(1, 3))]]]
+        els = [["assign", "a", ["inv", ["v", "a"]]]] if draw(st.booleans()) else []
+        f1["body"] = [["if", cond, then, els]] + f1["body"]
+    progs.append({"kind": "fun1", "prog": f1})
     # parameterised
     pp = draw(gen_prog.program(gen_cfg(), args=[["a", ["int", 2]], ["p", ["int", 2]]], params=("p",), name=names[4]))
     pp["params"] = ["p"]
@@ -62,11 +69,14 @@ def case(draw):
     caller = draw(gen_prog.program(gen_cfg(), args=[["a", c0["args"][0][1]], ["b", ["bool"]]], fns={c0["name"]: ([c0["args"][0][1]], ["bool"])}, name="caller"))
     progs.append({"kind": "caller", "prog": caller, "callee": 0})
     ops = []
-    nops = draw(st.integers(4, 12))
+    nops = draw(st.integers(3, 8))
     small = st.integers(0, 9)
-    optd = st.fixed_dictionaries({"to_compile": st.just(True), "opt": st.sampled_from(["default", "fast"]), "uncompute": st.sampled_from([True, True, False])})
+    optd = st.fixed_dictionaries({"to_compile": st.just(True), "opt": st.sampled_from(["default", "fast", "fast"]), "uncompute": st.sampled_from([True, True, False])})
+    # a prefix that makes several objects live: compile a few pool programs (the parameterised one included)
+    for pi in draw(st.permutations([0, 1, 2, 3, 4]))[: draw(st.integers(2, 3))]:
+        ops.append(["compile", pi, draw(optd)])
     for _ in range(nops):
-        k = draw(st.sampled_from(["compile", "compile", "compile", "bind", "defs", "oraclize", "grover", "grover", "dj", "bv", "simon", "export", "export", "decompile", "optimize", "tt", "logicfun", "repr"]))
+        k = draw(st.sampled_from(["compile", "compile", "compile", "bind", "bind", "bind", "defs", "oraclize", "grover", "grover", "dj", "bv", "simon", "export", "export", "decompile", "optimize", "tt", "logicfun", "logicfun", "repr"]))
         if k == "compile":
             ops.append([k, draw(small), draw(optd)])
         elif k == "bind":
@@ -213,15 +223,22 @@ def judge(case):  # noqa: C901
         history.append(stripped)
         ev = purity.Evaluator()
         try:
-            obj = ev.ev(recipe)
-            got = json.loads(json.dumps(purity.fingerprint(obj), default=str))
-        except purity._Propagate as e:
-            obj = None
-            got = "raised " + str(e)
+            with progeval.time_limit(25):
+                try:
+                    obj = ev.ev(recipe)
+                    got = json.loads(json.dumps(purity.fingerprint(obj), default=str))
+                except purity._Propagate as e:
+                    obj = None
+                    got = "raised " + str(e)
+        except progeval.Timeout:
+            return {"status": "skip", "nontrivial": False, "features": feats + ["timeout"]}
         D = {"history": [json.dumps(h)[:400] for h in history], "step": len(history) - 1, "programs": srcs}
         # (ii) frame invariant over all live objects
         for i, x in enumerate(live):
-            now = json.loads(json.dumps(purity.fingerprint(x["obj"]), default=str))
+            try:
+                now = json.loads(json.dumps(purity.fingerprint(x["obj"]), default=str))
+            except Exception as e:
+                return {"status": "violation", "kind": "live-object-unusable:" + k, "detail": dict(D, victim_recipe=json.dumps(purity.strip(x["recipe"]))[:300], exc=repr(e)[:200]), "features": feats}
             if now != x["fp"]:
                 diff = [kk for kk in now if isinstance(now, dict) and now.get(kk) != x["fp"].get(kk)] if isinstance(now, dict) else []
                 return {"status": "violation", "kind": "live-object-changed:" + k, "detail": dict(D, victim_recipe=json.dumps(purity.strip(x["recipe"]))[:300], changed_fields=diff), "features": feats}
